@@ -28,7 +28,15 @@ def run(ctx, model_ok):
                             "by a random table; compared: mask and returned faces, exactly")
     if ctx.driver_ok:
         from corr import trimesh_family as _tf
-        ctx.cov["correspondence_trimesh_inside"] = _tf.run_inside_stream(ctx, ctx.scale(150, 5000))
+        sti = _tf.run_inside_stream(ctx, ctx.scale(150, 5000))
+        ctx.cov["correspondence_trimesh_inside"] = sti
+        ctx.cov["evaluations"] += sti["inwards_rows"]
+        ctx.cov["traces_validated_against_impl"] += sti["inwards_rows"]
+        ctx.cov["rule"] += ("; trimesh-inside: is_facet_inwards (the seed test) on boxes, slabs, tetrahedra, hulls, L bodies, prisms with two base corners 1e-4..1e-2 apart, "
+                            "bodies with zero-area faces: two random facets per body and — for EVERY body kind — the facet with the largest aspect ratio (longest edge / smallest height, "
+                            "up to ~1e7) listed from each of its three edges in turn (inwards_needle_rows, by kind and by decade of the aspect ratio), either winding; "
+                            "verdicts of model (IEEE double) and real code compared exactly; a facet whose verdict changes with the edge it is listed from is counted "
+                            "(inwards_needle_rotation_dependent: what repo fix ed093b8 removed)")
         from corr import selfint_family as _sf
         ss = _sf.run_selfint_stream(ctx, ctx.scale(300, 8000))
         ctx.cov["evaluations"] += ss["segfacet_rows"] + ss["selfint_rows"]
@@ -73,8 +81,15 @@ def run(ctx, model_ok):
                             "faces with three distinct indices only (edge_count_eq_faces_containing); a face (a, a, b) counts its edge twice",
                             "orientation: propagation_consistent assumes that some consistent choice of flips exists; that every closed non-self-intersecting embedded mesh has one is not proved; "
                             "the seed verdict is a parameter: reorient_invariant_under_input_flips / reorient_idempotent (same faces, same mesh for every subset of input faces given flipped) hold for "
-                            "edge-connected orientable meshes UNDER THE HYPOTHESIS that the real seed test answers geometrically (flipping the seed face flips its verdict) — no theorem says that "
-                            "is_facet_inwards does, nor that its verdict is right, so 'after reorientation all faces point outwards' is not shown; meshes of several edge-components (bodies apart or "
+                            "edge-connected orientable meshes UNDER THE HYPOTHESIS that the real seed test answers geometrically (flipping the seed face flips its verdict).  About is_facet_inwards "
+                            "itself is proved: its check point (1e-5 x the longest edge since ed093b8) never lies in the touch band of the seed facet's own plane (seed_checkpoint_clears_own_plane: "
+                            "normalised projection >= 1e-5/(1+1e-5) from any corner; the rule before the fix did not: old_rule_touches_sliver, a valid tetrahedron with a needle seed facet judged "
+                            "inwards); it lies on the positive side of the facet normal AS GIVEN (changes sides with the winding); a check point outside the bounding box gives 'outwards' "
+                            "(seed_verdict_outside_box_outwards); for a mesh that is ONE tetrahedron with any windings (seed_verdict_geometric_tetra_partial) a check point strictly inside with a "
+                            "generic ray gives 'inwards', a check point beyond the plane of the first face only, generic ray, no OTHER face touched gives 'outwards' (even crossing count: "
+                            "crossCount_tetra_beyond_first) — on such a tetrahedron the seed verdict is geometric.  NOT shown: anything for meshes other than one tetrahedron (convex bodies: the parity "
+                            "argument for a closed triangulated surface is missing); the hypotheses 'no other face touched' (false for dihedral angles below ~1e-5) and 'generic ray' are not "
+                            "derived from the geometry; hence 'after reorientation all faces point outwards' is not shown; meshes of several edge-components (bodies apart or "
                             "touching in a vertex) get one seed test per component: winding invariance for them is compared by the meshperm stream only; invariance of the sweep under ROTATING the "
                             "windings (a,b,c)->(b,c,a) has no theorem (the returned faces are then rotated too; the sheets are rotation invariant, trimesh_sheets_rotation; meshperm stream)",
                             "inside test: theorem only for a mesh that is ONE tetrahedron, observers strictly inside, generic ray (tetra_interior_found_by_ray_test_partial); nothing for observers "
@@ -86,8 +101,8 @@ def run(ctx, model_ok):
                             "(triangle_field_cyclic) and exchange of two vertices (triangle_field_flip).  NOT shown: triangle_field_flip for an observer within the on_edge tolerance of an edge — "
                             "false of the code (the substitute value log(-a/c)/l changes sign with the edge direction: triangle_edge_on_edge_changes_sign); the inside test under a rotation of a "
                             "face's vertices: its crossing count is winding-free (crossing_count_winding_invariant) but the touch test |proj| < 1e-7 is measured from the face's LAST vertex, so an observer "
-                            "within ~1e-7 (relative) of a face plane changes sides with the vertex order of that face (reproduced on the real class: unit tetrahedron, observer 5e-8 outside the face "
-                            "x+y+z=1 near (1,0,0)); outside that layer: meshperm stream"]
+                            "within ~1e-7 (relative) of a face plane changes sides with the vertex order of that face (theorem touch_verdict_depends_on_reference_vertex: unit tetrahedron, observer "
+                            "(0.9, 0.05, 0.05) + 3e-8 (1,1,1), face x+y+z=1 listed [2,3,1]: outside, [3,1,2]: inside; reproduced on the real class); outside that layer: meshperm stream"]
 
 
 def replay(ctx, payload):
